@@ -304,14 +304,14 @@ func (s *SMF) WriteTo(f io.Writer) (size int64, err error) {
 			wr.SetDelta(ev.Delta)
 			err = wr.Write(ev.Message)
 			if err != nil {
-				break
+				return wr.output.size, err
 			}
 		}
 
 		err = wr.writeChunkTo(wr.output)
 
 		if err != nil {
-			break
+			return wr.output.size, err
 		}
 	}
 
